@@ -47,8 +47,9 @@ def make_struct(w, t1x, t1y, t2x, t2y, lv, rootkind, with_table=True):
   inter = (1, 'a', (2, 3))                       # tuple of literals (internable)
   shared = [nodes[0], inter, lv + 6]
   dd = collections.defaultdict(list, {'a': nodes[0], 'b': [lv + 7]})
+  deep_t = ((shared, nodes[0]), lv + 12)         # non-constant content only inside the nested tuple; referenced twice
   top = fdl.Config(fam.fp, root3, inter, shared, dd, fam.NT(nodes[1], ()), fam.Box([nodes[0], lv + 8]),
-                   k={'e': [], 'i': inter, 's': shared, 3: {},
+                   k={'e': [], 'i': inter, 's': shared, 3: {}, 'dt': [deep_t, {'again': deep_t}],
                       't': [fam.Table({'a': nodes[0], 'b': lv + 9}), fam.Table({'a': lv + 10, 'c': nodes[0]}),
                             fam.Table({'b': lv + 9, 'a': lv + 11})]})
   if not with_table:
